@@ -1165,7 +1165,12 @@ class Client(BaseClient):
                     raise
         if ip in ("0.0.0.0", None):
             ip = self.server_host
-        reader, writer = await self._open_connection(ip, port)
+        # address comes from the server: connect which is never answered is
+        # bounded as connect of command connection is
+        reader, writer = await asyncio.wait_for(
+            self._open_connection(ip, port),
+            self.connection_timeout,
+        )
         return reader, writer
 
     @async_enterable
